@@ -148,15 +148,14 @@ EXPORT int swprintf_s(wchar_t *restrict dest, rsize_t dmax,
         }
     }
 
-    if (unlikely(fmt == NULL)) {
-        invoke_safe_str_constraint_handler("swprintf_s: fmt is null",
-                                           (void *)dest, ESNULLP);
-        return -(ESNULLP);
-    }
     if (unlikely(dmax == 0)) {
         invoke_safe_str_constraint_handler("swprintf_s: dmax is 0",
                                            (void *)dest, ESZEROL);
         return -(ESZEROL);
+    }
+    if (unlikely(fmt == NULL)) { /* dest and dmax are usable: clear dest */
+        handle_werror(dest, dmax, "swprintf_s: fmt is null", ESNULLP);
+        return -(ESNULLP);
     }
 
     /* fmt + args might be empty which is then valid
